@@ -151,6 +151,8 @@ def _spd_or_general(rng, n, kind):
         A = Q @ numpy.diag(lam) @ Q.T
         return 0.5 * (A + A.T)
     A = numpy.array([[rng.randint(-4, 4) / 4 for _ in range(n)] for _ in range(n)]) + numpy.diag([rng.choice([3, 4, -3]) for _ in range(n)])
+    if rng.random() < 0.5:
+        A = A[rng.sample(range(n), n)]        # rows interchanged: partial pivoting really pivots, differently in every direction
     return A
 
 
@@ -302,6 +304,64 @@ def _gen_rect(rng, Dmax=6, Pmax=3):
 _op = Op('linalg:trace_rect', _gen_rect, lambda algopy, case, inputs: [numpy.asarray(algopy.trace(algopy.UTPM(_as(inputs[0]))).data)], 'linalg')
 _op.ref0 = lambda case, ins0: [numpy.trace(ins0[0])]
 reg(_op)
+
+# qr with base points of DIFFERENT numerical rank in the directions (full rank next to rank-deficient ones), tall and square
+def _gen_qr_mixed(rng, Dmax=6, Pmax=3):
+    D = rng.randint(2, 4); P = rng.randint(2, 3)
+    M, N = rng.choice([(3, 2), (4, 2), (4, 3), (3, 3), (2, 2), (5, 3)])
+    A = _rand_utpm(rng, D, P, (M, N))
+    ranks = [N] * P
+    while len(set(ranks)) == 1:
+        ranks = [rng.choice([N, N, N - 1, max(N - 2, 1)]) for _ in range(P)]
+    for p in range(P):
+        r = ranks[p]
+        while True:
+            B = numpy.array([[rng.randint(-3, 3) for _ in range(r)] for _ in range(M)], dtype=float)
+            C = numpy.array([[rng.randint(-2, 2) for _ in range(N)] for _ in range(r)], dtype=float)
+            C[:, :r] += 3 * numpy.eye(r)            # leading columns independent: the deficiency shows in the trailing diagonal of R
+            if numpy.linalg.matrix_rank(B @ C) == r:
+                break
+        A[0, p] = B @ C / 2
+    return dict(op='linalg:qr_mixed_rank', inputs=[A.tolist()], ranks=ranks)
+
+
+def _run_qr_mixed(algopy, case, inputs):
+    Q, R = algopy.qr(algopy.UTPM(_as(inputs[0])))
+    return [numpy.asarray(Q.data), numpy.asarray(R.data)]
+
+
+_op = Op('linalg:qr_mixed_rank', _gen_qr_mixed, _run_qr_mixed, 'linalg')
+_op.only = ('C11',)
+reg(_op)
+
+# call forms with a caller-supplied, prefilled result buffer (the methods that honour out=: solve, cholesky)
+def _stale(shape):
+    return 7.25 + numpy.arange(int(numpy.prod(shape)), dtype=float).reshape(shape) / 3
+
+
+def _gen_outbuf(name):
+    def gen(rng, Dmax=6, Pmax=3):
+        case = _gen_linalg(name, 'spd' if name == 'cholesky' else 'general', 2 if name == 'solve' else 1)(rng, Dmax, Pmax)
+        case['op'] = 'linalg:%s_outbuf' % name
+        return case
+    return gen
+
+
+def _run_outbuf(name):
+    def run(algopy, case, inputs):
+        A = algopy.UTPM(_as(inputs[0]))
+        if name == 'solve':
+            buf = algopy.UTPM(_stale(inputs[1].shape)); algopy.UTPM.solve(A, algopy.UTPM(_as(inputs[1])), out=buf)
+        else:
+            buf = algopy.UTPM(_stale(inputs[0].shape)); algopy.UTPM.cholesky(A, out=buf)
+        return [numpy.asarray(buf.data)]
+    return run
+
+
+for _name in ('solve', 'cholesky'):
+    _op = Op('linalg:%s_outbuf' % _name, _gen_outbuf(_name), _run_outbuf(_name), 'linalg')
+    _op.only = ('C11', 'C12')
+    reg(_op)
 
 # general eigenproblem (first order only: UTPM.eig supports D <= 2), real distinct spectrum, non-normal matrices
 def _gen_eig(rng, Dmax=6, Pmax=3):
